@@ -84,10 +84,15 @@ static unsigned int read_int_from_array(uint8_t *array)
 
 static int reassemble(struct websocket *s, uint8_t *msg, size_t length)
 {
-	if (length != 0) {
+	{
 		z_stream *strm = &s->extension_compression.strm_decomp;
 		if (strm->avail_in == 0) {
-			unsigned int memory = length * 3 + 4;
+			/*
+			 * Empty fragments get a buffer too: the last fragment finds
+			 * the collected length in its header. The extra bytes keep
+			 * avail_in, which also marks an existing buffer, above zero.
+			 */
+			unsigned int memory = length * 3 + 8;
 			strm->next_in = malloc(memory);
 			if (unlikely(strm->next_in == NULL)) {
 				log_err("Reassemble: Not enough memory for alloc!");
